@@ -55,6 +55,15 @@ func logUniform(r *rand.Rand, lo, hi time.Duration) time.Duration {
 	return time.Duration(math.Exp(x))
 }
 
+// hugeConfig: a lifetime at the very top of what a time.Duration can hold, with or
+// without skews ("positive lifetime" has no upper bound in the statement).
+func hugeConfig(r *rand.Rand) vkit.RootConfig {
+	c := vkit.RootConfig{L: time.Duration(math.MaxInt64 - r.Int63n(1000))}
+	c.NB = []time.Duration{0, nodeenrollment.DefaultNotBeforeClockSkewDuration, -time.Hour}[r.Intn(3)]
+	c.NA = []time.Duration{0, time.Nanosecond, nodeenrollment.DefaultNotAfterClockSkewDuration, 24 * time.Hour}[r.Intn(4)]
+	return c
+}
+
 func randomConfig(r *rand.Rand) vkit.RootConfig {
 	if r.Intn(6) == 0 {
 		return vkit.RootConfig{L: nodeenrollment.DefaultCertificateLifetime, NB: nodeenrollment.DefaultNotBeforeClockSkewDuration, NA: nodeenrollment.DefaultNotAfterClockSkewDuration}
@@ -92,6 +101,11 @@ type enumCase struct {
 
 func runEnumCase(t *testing.T, r *rand.Rand, ranks [4]int, nowPos int, variant string, wrapper bool, cfg vkit.RootConfig) {
 	rec := vkit.Rec(prop)
+	if variant == "missing" || variant == "missing+reinit" || (variant == "ordering" && r.Intn(12) == 0) {
+		if r.Intn(3) == 0 {
+			cfg = hugeConfig(r)
+		}
+	}
 	// storage back end: in-memory, file, or the repository's store-once test back end
 	backend := []vkit.Backend{vkit.Inmem, vkit.Inmem, vkit.File, vkit.StoreOnce}[r.Intn(4)]
 	w := vkit.NewWorld(vkit.WorldConfig{Backend: backend, StorageWrapper: wrapper, RootOpts: cfg.Opts()})
